@@ -2,6 +2,7 @@ SPECIFICATION Spec
 CONSTANT Letters <- ACGT
 CONSTANT L = 2
 CONSTANT MaxAlt = 2
+CONSTANT Hints <- FullHint
 CONSTANT Refs <- AllSeqs
 CONSTANT FirstAppearance <- MutSortedAlleles
 INVARIANT RefRowZero
